@@ -41,6 +41,11 @@ class FramedIpAddressAVP(DiameterAVP, AddressType):
                                     "of 'str' with IPv4 address format value")
 
         elif isinstance(data, bytes):
+            if len(data) != 4:
+                raise DataTypeError("Framed-IP-Address MUST have data "\
+                                    "argument of 'bytes' with the 4 octets "\
+                                    "of an IPv4 address")
+
             self._data = data
 
 
